@@ -20,7 +20,7 @@ Shapes == IF Thorough
           THEN { <<1,1,1>>, <<1,1,2>>, <<1,1,3>>, <<1,2,1>>, <<2,1,1>>, <<3,1,1>>, <<1,2,2>>, <<2,2,1>>, <<2,1,2>>, <<1,2,3>>, <<1,3,2>>, <<2,1,3>>,
                  <<2,2,2>>, <<1,1,5>>, <<1,3,3>>, <<3,3,1>>, <<2,2,3>>, <<3,3,3>>, <<2,3,4>> }
           ELSE { <<1,1,1>>, <<1,1,2>>, <<1,1,3>>, <<2,1,1>>, <<1,2,2>>, <<2,1,2>>, <<1,2,3>>, <<2,2,2>>, <<1,1,5>>, <<1,3,3>>, <<3,3,3>> }
-FullLimit == IF Thorough THEN 8 ELSE 5     \* all images in 0..MaxVal up to this many voxels
+FullLimit == IF Thorough THEN 6 ELSE 5     \* all images in 0..MaxVal up to this many voxels
 
 \* --- stencils (symmetric, non-negative, centre 0), as functions of the offset
 OffOf(wr, n) == << (n - 1) \div ((2 * wr[2] + 1) * (2 * wr[3] + 1)) - wr[1],
@@ -49,7 +49,7 @@ Images(d) == IF NVox(d) <= FullLimit THEN AllImages(d) ELSE SparseImages(d)
 
 AB == IF Thorough THEN 8 ELSE 6
 PotStates == { [kind |-> "pot", p |-> [gamma |-> g, eps |-> e], a |-> a, b |-> b] : g \in 0..3, e \in 1..3, a \in 0..AB, b \in 0..AB }
-RdpShapes == IF Thorough THEN { <<1,1,1>>, <<1,1,2>>, <<1,1,3>>, <<1,2,2>>, <<2,1,2>>, <<1,2,3>>, <<2,2,2>> } ELSE { <<1,1,1>>, <<1,1,2>>, <<1,1,3>>, <<1,2,2>>, <<2,1,2>> }
+RdpShapes == IF Thorough THEN { <<1,1,1>>, <<1,1,2>>, <<1,1,3>>, <<1,2,2>>, <<2,1,2>>, <<1,1,4>>, <<3,1,1>>, <<1,2,3>> } ELSE { <<1,1,1>>, <<1,1,2>>, <<1,1,3>>, <<1,2,2>>, <<2,1,2>> }
 
 KB == { <<0, 1>>, <<1, 2>>, <<2, 1>> }     \* (kappa pattern, beta)
 Init == /\ k = 0
